@@ -6,7 +6,8 @@ from hypothesis import strategies as st
 import harness.compat  # noqa: F401
 from harness import refmodel as rm
 from harness import strategies as S
-from harness.build import mktx, mkfeat, mkcds, mkgene, mkfc, mkcollection, chrom_parent, chunk_parent
+from harness.build import mktx, mkfeat, mkcds, mkgene, mkfc, mkcollection, chrom_parent, chunk_parent, STRAND
+from inscripta.biocantor.location.location import Location
 from harness.core import Leg, Prop
 from inscripta.biocantor.exc import BioCantorException
 
@@ -43,9 +44,10 @@ def window_labels(ctx, blocks, cs, ce, strand):
     return inside_any
 
 
-def check_interval_view(ctx, A, B, blocks, strand, cs, ce, g, what):
-    """A on whole chromosome, B on chunk [cs,ce)"""
+def check_interval_view(ctx, A, B, blocks, strand, cs, ce, g, what, cst="+"):
+    """A on whole chromosome, B on chunk [cs,ce) (cst "-": the chunk is the reverse complement of its window)"""
     pos = rm.positions(blocks, strand)
+    dn = (lambda p: p - cs) if cst == "+" else (lambda p: ce - 1 - p)
     inside = [p for p in pos if cs <= p < ce]
     # (a) chromosome-level answers
     ctx.eq(what + ":chromosome_blocks", rm.loc_blocks(B.chromosome_location), rm.loc_blocks(A.chromosome_location))
@@ -65,7 +67,8 @@ def check_interval_view(ctx, A, B, blocks, strand, cs, ce, g, what):
         return inside
     if not ctx.true(what + ":hit_not_empty", not crl.is_empty, repr(crl)):
         return inside
-    ctx.eq(what + ":chunk_relative_positions", rm.loc_positions(crl), [p - cs for p in inside])
+    ctx.eq(what + ":chunk_relative_positions", rm.loc_positions(crl), [dn(p) for p in inside])
+    ctx.eq(what + ":chunk_relative_strand", rm.loc_strand(crl), rm.compose(strand, cst))
     back = B.lift_over_to_first_ancestor_of_type("chromosome")
     ctx.eq(what + ":lifted_back", rm.loc_positions(back), inside)
     ctx.eq(what + ":chunk_relative_size", B.chunk_relative_size, len(inside))
@@ -81,8 +84,9 @@ def check_interval_view(ctx, A, B, blocks, strand, cs, ce, g, what):
     return inside
 
 
-def check_cds_view(ctx, A, B, spec, cs, ce, g, what="cds"):
+def check_cds_view(ctx, A, B, spec, cs, ce, g, what="cds", cst="+"):
     bl, strand, frames = spec["blocks"], spec["strand"], spec["frames"]
+    up = (lambda pc: pc + cs) if cst == "+" else (lambda pc: ce - 1 - pc)
     model, degenerate = rm.frame_walk(bl, strand, frames)
     if degenerate or not model:
         ctx.label("degenerate_cds")
@@ -106,7 +110,7 @@ def check_cds_view(ctx, A, B, spec, cs, ce, g, what="cds"):
         ctx.label("chunk_covers_only_skipped_bases")
     # (d) chunk-relative codons
     try:
-        got = [tuple(p + cs for p in t) for t in codon_triples(B.chunk_relative_codon_locations)]
+        got = [tuple(up(p) for p in t) for t in codon_triples(B.chunk_relative_codon_locations)]
     except BioCantorException as e:
         ctx.fail(what + ":chunk_relative_codons_raise", {"exc": repr(e)[:120], "any_inside": any_inside})
         return
@@ -116,7 +120,7 @@ def check_cds_view(ctx, A, B, spec, cs, ce, g, what="cds"):
     ctx.eq(what + ":chunk_relative_codons", got, inside_codons, extra={"chunk": [cs, ce]})
     ctx.eq(what + ":num_chunk_relative_codons", B.num_chunk_relative_codons, len(inside_codons))
     seqs = [rm.seq_image(g, c, strand).upper() for c in inside_codons]
-    B2 = mkcds(spec, chunk_parent(g, cs, ce))
+    B2 = mkcds(spec, chunk_parent(g, cs, ce, strand=cst))
     if any_inside:
         try:
             ctx.eq(what + ":extract_sequence", str(B2.extract_sequence()).upper(), "".join(seqs))
@@ -135,26 +139,91 @@ def check_cds_view(ctx, A, B, spec, cs, ce, g, what="cds"):
             ctx.fail(what + ":chunk_relative_frames_raise", repr(e)[:100])
             return
         if len(cf) == len(cb):
-            cod2, deg2 = rm.frame_walk([list(b) for b in cb], strand, cf)
+            cod2, deg2 = rm.frame_walk([list(b) for b in cb], rm.compose(strand, cst), cf)
             if not deg2:
-                ctx.eq(what + ":chunk_relative_frames_model", [tuple(p + cs for p in c) for c in cod2], inside_codons, extra={"frames": cf, "blocks": cb})
+                ctx.eq(what + ":chunk_relative_frames_model", [tuple(up(p) for p in c) for c in cod2], inside_codons, extra={"frames": cf, "blocks": cb})
         else:
             ctx.fail(what + ":chunk_relative_frames_length", {"frames": cf, "blocks": cb})
+
+
+def _outcome(fn, *a):
+    try:
+        r = fn(*a)
+    except Exception as e:  # compared between the twins by class
+        return ["raises", type(e).__name__]
+    if isinstance(r, Location):
+        return ["loc", rm.loc_positions(r) if not r.is_empty else [], rm.loc_strand(r) if not r.is_empty else None]
+    return ["value", r]
+
+
+def check_conversions(ctx, A, B, kind, blocks, strand, cds_blocks, cs, ce, what):
+    """chromosome-level coordinate conversions answer the same on the chunk twin as on the whole-chromosome twin, for every
+    position (inside the chunk or not).  (The chunk_relative_* conversions are relative to the *sliced* interval by design
+    and are not compared.)"""
+    T = rm.positions(blocks, strand)
+    lo, hi = min(T), max(T) + 1
+    n = len(T)
+    per_pos = {"feat": ["sequence_pos_to_feature"], "tx": ["sequence_pos_to_transcript", "sequence_pos_to_feature"]}[kind]
+    per_rel = {"feat": ["feature_pos_to_sequence"], "tx": ["transcript_pos_to_sequence", "feature_pos_to_sequence"]}[kind]
+    for name in per_pos:
+        for p in range(max(0, lo - 1), hi + 1):
+            ctx.eq("%s:conversion_same_on_chunk:%s" % (what, name), _outcome(getattr(B, name), p), _outcome(getattr(A, name), p), extra=p)
+    for name in per_rel:
+        for t in range(-1, n + 1):
+            ctx.eq("%s:conversion_same_on_chunk:%s" % (what, name), _outcome(getattr(B, name), t), _outcome(getattr(A, name), t), extra=t)
+    ivs = [(lo, hi), (lo, lo + 1), (hi - 1, hi), (max(0, lo - 1), hi + 1), (cs, ce), (max(lo, cs), max(lo, cs) + 1)]
+    iv_pos = {"feat": ["sequence_interval_to_feature"], "tx": ["sequence_interval_to_transcript"]}[kind]
+    iv_rel = {"feat": ["feature_interval_to_sequence"], "tx": ["transcript_interval_to_sequence"]}[kind]
+    for name in iv_pos:
+        for a, b in ivs:
+            if 0 <= a < b:
+                for q in "+-":
+                    ctx.eq("%s:conversion_same_on_chunk:%s" % (what, name), _outcome(getattr(B, name), a, b, STRAND[q]), _outcome(getattr(A, name), a, b, STRAND[q]), extra=[a, b, q])
+    for name in iv_rel:
+        for a, b in ((0, n), (0, 1), (n - 1, n), (n // 2, n)):
+            if 0 <= a < b:
+                for q in "+-":
+                    ctx.eq("%s:conversion_same_on_chunk:%s" % (what, name), _outcome(getattr(B, name), a, b, STRAND[q]), _outcome(getattr(A, name), a, b, STRAND[q]), extra=[a, b, q])
+    if kind == "tx" and cds_blocks:
+        C = rm.positions(cds_blocks, strand)
+        m = len(C)
+        if any(not (cs <= p < ce) for p in C) and any(cs <= p < ce for p in C):
+            ctx.label("chunk_cuts_cds:conversions")
+        for name in ("sequence_pos_to_cds",):
+            for p in range(max(0, lo - 1), hi + 1):
+                ctx.eq("%s:conversion_same_on_chunk:%s" % (what, name), _outcome(getattr(B, name), p), _outcome(getattr(A, name), p), extra=p)
+        for p in range(max(0, lo - 1), hi + 1):
+            ctx.eq(what + ":conversion_same_on_chunk:cds.sequence_pos_to_amino_acid", _outcome(B.cds.sequence_pos_to_amino_acid, p), _outcome(A.cds.sequence_pos_to_amino_acid, p), extra=p)
+        for name in ("cds_pos_to_sequence", "cds_pos_to_transcript"):
+            for c in range(-1, m + 1):
+                ctx.eq("%s:conversion_same_on_chunk:%s" % (what, name), _outcome(getattr(B, name), c), _outcome(getattr(A, name), c), extra=c)
+        for t in range(-1, n + 1):
+            ctx.eq(what + ":conversion_same_on_chunk:transcript_pos_to_cds", _outcome(B.transcript_pos_to_cds, t), _outcome(A.transcript_pos_to_cds, t), extra=t)
+        for a, b in ((0, m), (0, 1), (m - 1, m), (m // 2, m)):
+            if 0 <= a < b:
+                ctx.eq(what + ":conversion_same_on_chunk:cds_interval_to_sequence", _outcome(B.cds_interval_to_sequence, a, b, STRAND["+"]), _outcome(A.cds_interval_to_sequence, a, b, STRAND["+"]), extra=[a, b])
+        for a, b in ivs:
+            if 0 <= a < b:
+                ctx.eq(what + ":conversion_same_on_chunk:sequence_interval_to_cds", _outcome(B.sequence_interval_to_cds, a, b, STRAND["+"]), _outcome(A.sequence_interval_to_cds, a, b, STRAND["+"]), extra=[a, b])
 
 
 def check_view(spec, ctx):
     kind = spec["kind"]
     g = spec["genome"]
     cs, ce = spec["chunk"]
-    PA, PB = chrom_parent(g), chunk_parent(g, cs, ce)
+    cst = spec.get("chunk_strand", "+")
+    PA, PB = chrom_parent(g), chunk_parent(g, cs, ce, strand=cst)
     o = spec["obj"]
+    if cst == "-":
+        ctx.label("minus_strand_chunk")
     if cs > 0:
         ctx.label("chunk_start>0")
     if kind == "feat":
         A, B = mkfeat(o, PA), mkfeat(o, PB)
         window_labels(ctx, o["blocks"], cs, ce, o["strand"])
         ctx.nt()
-        check_interval_view(ctx, A, B, o["blocks"], o["strand"], cs, ce, g, "feature")
+        check_interval_view(ctx, A, B, o["blocks"], o["strand"], cs, ce, g, "feature", cst)
+        check_conversions(ctx, A, B, "feat", o["blocks"], o["strand"], None, cs, ce, "feature")
         Bp = A.liftover_to_parent_or_seq_chunk_parent(PB)
         ctx.eq("feature:relifted_equals_built", (norm_dict(Bp.to_dict()), rm.loc_blocks(Bp.chunk_relative_location) if not Bp.chunk_relative_location.is_empty else []),
                (norm_dict(B.to_dict()), rm.loc_blocks(B.chunk_relative_location) if not B.chunk_relative_location.is_empty else []))
@@ -164,12 +233,13 @@ def check_view(spec, ctx):
         ctx.nt()
         ctx.eq("cds:to_dict", norm_dict(B.to_dict()), norm_dict(A.to_dict()))
         ctx.eq("cds:guid", str(B.guid), str(A.guid))
-        check_cds_view(ctx, A, B, o, cs, ce, g)
+        check_cds_view(ctx, A, B, o, cs, ce, g, cst=cst)
     elif kind == "tx":
         A, B = mktx(o, PA), mktx(o, PB)
         window_labels(ctx, o["exons"], cs, ce, o["strand"])
         ctx.nt()
-        inside = check_interval_view(ctx, A, B, o["exons"], o["strand"], cs, ce, g, "transcript")
+        inside = check_interval_view(ctx, A, B, o["exons"], o["strand"], cs, ce, g, "transcript", cst)
+        check_conversions(ctx, A, B, "tx", o["exons"], o["strand"], o.get("cds"), cs, ce, "transcript")
         if "cds" in o:
             cspec = {"blocks": o["cds"], "strand": o["strand"], "frames": o["frames"], "offset": o["offset"], "frameshift": o.get("frameshift")}
             cds_inside = any(cs <= p < ce for b in o["cds"] for p in range(b[0], b[1]))
@@ -178,7 +248,7 @@ def check_view(spec, ctx):
                 # (e) chromosome-level CDS description is kept (to_dict/guid compared above)
             if B.cds is not None and A.cds is not None:
                 ctx.eq("transcript:cds_guid", str(B.cds.guid), str(A.cds.guid))
-                check_cds_view(ctx, A.cds, B.cds, cspec, cs, ce, g, "transcript_cds")
+                check_cds_view(ctx, A.cds, B.cds, cspec, cs, ce, g, "transcript_cds", cst=cst)
         Bp = A.liftover_to_parent_or_seq_chunk_parent(PB)
         ctx.eq("transcript:relifted_to_dict", norm_dict(Bp.to_dict()), norm_dict(B.to_dict()))
     elif kind == "gene":
@@ -265,7 +335,10 @@ def strat_view(draw, tier="quick"):
     else:
         cs = draw(st.integers(0, n - 1))
         ce = draw(st.integers(cs + 1, n))
-    return {"kind": kind, "obj": o, "genome": g, "chunk": [cs, ce]}
+    sp = {"kind": kind, "obj": o, "genome": g, "chunk": [cs, ce]}
+    if kind in ("feat", "tx", "cds") and draw(st.integers(0, 3)) == 0:
+        sp["chunk_strand"] = "-"   # the chunk is the reverse complement of its window (seq_chunk_to_parent(strand=MINUS))
+    return sp
 
 
 def enum_single_exon_cds(tier, shard, nshards):
